@@ -31,7 +31,8 @@ EXPR = {
     'xlslink': '[1]Sheet1!A1',
 }
 # other spellings of an unknown function: dotted names whose parts are implemented functions, names that extend an implemented one
-ALT = {'ref': ['SUM((A1:A2,#REF!))', 'SUM(A1:A2 #REF!)', 'SUM(A1:#REF!)', 'S!#REF!', 'SUM(#REF!)', "'[b.xlsx]S'!#REF!"],
+ALT = {'name': ['ALIAS', 'ALIAS2', 'ALIAS*1+ALIAS2'],       # defined names of the workbook whose definitions lead to a name that does not exist
+       'ref': ['SUM((A1:A2,#REF!))', 'SUM(A1:A2 #REF!)', 'SUM(A1:#REF!)', 'S!#REF!', 'SUM(#REF!)', "'[b.xlsx]S'!#REF!"],
        'func': ['FOO.SUM(A1)', 'SUM.FOO(A1)', 'SUMX(A1)', 'XSUM(A1)', 'CEILING.NOSUCH(A1,1)', 'T.NOSUCH(A1)'],
        'xlfn': ['_xlfn.ECMA.CEILING(A1,1)', '_xlfn.CONFIDENCE.T(A1,1,3)', '_xlfn._xlws.NEWSORT(A1)', '_xlfn.SUM.X(A1)', '_xlfn.X.SUM(A1)', '_xlfn.XSUM(A1)', '_XLFN.newfunc(A1)']}
 KIND = {'func': ['#NAME?'], 'xlfn': ['#NAME?'], 'sheet': ['#REF!'], 'book': ['#REF!'], 'unreadable': ['#REF!'], 'name': ['#REF!', '#NAME?'],
@@ -46,7 +47,7 @@ def formulas_for(pos, faults, qualify=False, alt=None):
     EXPR = dict(globals()['EXPR'])
     for k, i in (alt or {}).items():
         EXPR[k] = ALT[k][i]
-    extra = ''.join('+' + (EXPR[f] if not qualify else EXPR[f].replace('A1', P + 'A1').replace('UNDEFNAME', "'[b.xlsx]'!UNDEFNAME").replace('OTHERNAME', "'[b.xlsx]'!OTHERNAME")) for f in faults)
+    extra = ''.join('+' + (EXPR[f] if not qualify else EXPR[f].replace('A1', P + 'A1').replace('UNDEFNAME', "'[b.xlsx]'!UNDEFNAME").replace('OTHERNAME', "'[b.xlsx]'!OTHERNAME").replace('ALIAS', "'[b.xlsx]'!ALIAS")) for f in faults)
     c = {
         'B1': '=%sA1+%sA2' % (q, q), 'B2': '=%sB1*2' % q,
         'C1': '=%sA1+10' % q, 'C2': '=%sC1+1' % q, 'C3': '=%sC2+1' % q,
@@ -58,7 +59,7 @@ def formulas_for(pos, faults, qualify=False, alt=None):
         'D5': '=IF(ISERR(%sC3),"e","v")' % q, 'D6': '=%sC1&"|"' % q, 'E1': '=%sB2+%sA2' % (q, q),
     })
     # every fault intercepted on its own inside ONE formula
-    terms = [EXPR[f] if not qualify else EXPR[f].replace('A1', P + 'A1').replace('UNDEFNAME', "'[b.xlsx]'!UNDEFNAME").replace('OTHERNAME', "'[b.xlsx]'!OTHERNAME") for f in faults]
+    terms = [EXPR[f] if not qualify else EXPR[f].replace('A1', P + 'A1').replace('UNDEFNAME', "'[b.xlsx]'!UNDEFNAME").replace('OTHERNAME', "'[b.xlsx]'!OTHERNAME").replace('ALIAS', "'[b.xlsx]'!ALIAS") for f in faults]
     c['D7'] = '=' + '+'.join(['IFERROR(%s,3)' % t for t in terms] + ['%sA1' % q])
     if not qualify:
         # references into the existing linked workbook: never depend on any fault
@@ -140,6 +141,9 @@ def run_case(case):
             ws['A1'], ws['A2'] = 1, 2
             for c, f in cells.items():
                 ws[c] = f
+            from openpyxl.workbook.defined_name import DefinedName
+            wb.defined_names['ALIAS'] = DefinedName('ALIAS', attr_text='OLD_RATE')
+            wb.defined_names['ALIAS2'] = DefinedName('ALIAS2', attr_text='ALIAS')
             from openpyxl.packaging.relationship import Relationship
             from openpyxl.workbook.external_link.external import ExternalLink, ExternalBook, ExternalSheetNames
             for target, sheets in (('legacy.xls', ['Sheet1']), ('c.xlsx', ['Alpha', 'Beta'])):
@@ -158,7 +162,7 @@ def run_case(case):
                 sol = formulas.ExcelModel().loads(os.path.join(d, book)).finish().calculate()
         else:
             cells, _ = formulas_for(pos, faults, qualify=True, alt=alt)
-            d = {P + 'A1': 1, P + 'A2': 2}
+            d = {P + 'A1': 1, P + 'A2': 2, "'[b.xlsx]'!ALIAS": "='[b.xlsx]'!OLD_RATE", "'[b.xlsx]'!ALIAS2": "='[b.xlsx]'!ALIAS"}
             d.update({P + c: f for c, f in cells.items()})
             sol = formulas.ExcelModel().from_dict(d).calculate()
     except Exception as e:
@@ -191,6 +195,8 @@ def cases(tier):
         for k in ALT:
             for i in range(len(ALT[k])):
                 for path, others in (('file', FAULTS), ('dict', DICT_FAULTS)):
+                    if path == 'dict' and (k == 'name' or k not in DICT_FAULTS):
+                        continue        # a name defined as another, undefined name is resolved by completion (file path) only
                     yield [path, pos, [k], {k: i}]
                     for o in others:
                         if o != k and (tier != 'quick' or pos == 'middle'):
